@@ -436,9 +436,22 @@ type hostileOutcome struct {
 // reported) the remaining calls are skipped - the check has its verdict and must itself come to an end.
 var hostileHangs atomic.Int32
 
-const maxHostileHangs = 6
+const maxHostileHangs = 8
 
 func runHostile(f func() error) (o hostileOutcome) {
+	o = runHostileOnce(f)
+	if o.kind == "timeout" || o.dur > 2*time.Second {
+		// a wall-clock observation: repeated alone before it counts (the first hang is already counted against the budget)
+		core.Calm(func() {
+			if o2 := runHostileOnce(f); o2.kind != "skipped" {
+				o = o2
+			}
+		})
+	}
+	return o
+}
+
+func runHostileOnce(f func() error) (o hostileOutcome) {
 	if hostileHangs.Load() >= maxHostileHangs {
 		return hostileOutcome{kind: "skipped"}
 	}
@@ -907,7 +920,7 @@ func C12(c *core.Ctx) {
 			report("C12:timeout:"+j.entry, fmt.Sprintf("%s did not return within 30 s on a %s mutant (%s at %s, %d octets)", j.entry, p.base, p.op, p.target, len(j.input)), j.input, j.entry)
 		default:
 			n := int64(len(j.input))
-			if o.dur > time.Duration(2000+n*n/1000000)*time.Millisecond*4 {
+			if o.dur > core.Stretch(time.Duration(2000+n*n/1000000)*time.Millisecond*4) {
 				report("C12:slow:"+j.entry, fmt.Sprintf("%s took %s on %d octets (%s at %s)", j.entry, o.dur, n, p.op, p.target), j.input, j.entry)
 			}
 		}
@@ -1356,7 +1369,7 @@ func c12HostileChip(c *core.Ctx) {
 		o := outs[i]
 		if o.kind == "panic" || o.kind == "timeout" {
 			c.Violation("C12:"+o.kind+":reader.ReadDocument:"+panicSite(o.text), fmt.Sprintf("ReadDocument: %s with a chip answering %s from exchange %d: %s", o.kind, j.op, j.from, firstLine(o.text)), map[string]any{"op": j.op, "from": j.from})
-		} else if o.dur > 20*time.Second {
+		} else if o.dur > core.Stretch(20*time.Second) {
 			c.Violation("C12:slow:reader.ReadDocument", fmt.Sprintf("ReadDocument took %s with a chip answering %s from exchange %d", o.dur, j.op, j.from), map[string]any{"op": j.op, "from": j.from})
 		}
 	}
@@ -1662,7 +1675,7 @@ func c12AuthenticatedHostileChip(c *core.Ctx) {
 		o := outs[i]
 		if o.kind == "panic" || o.kind == "timeout" {
 			c.Violation("C12:"+o.kind+":NfcSession.DoAPDU:"+panicSite(o.text), fmt.Sprintf("DoAPDU: %s on an authenticated response with %s (%s): %s", o.kind, j.sh.name, j.su.Name, firstLine(o.text)), map[string]any{"shape": j.sh.name, "suite": j.su.Name})
-		} else if o.dur > 20*time.Second {
+		} else if o.dur > core.Stretch(20*time.Second) {
 			c.Violation("C12:slow:NfcSession.DoAPDU", fmt.Sprintf("DoAPDU took %s on an authenticated response with %s (%s)", o.dur, j.sh.name, j.su.Name), map[string]any{"shape": j.sh.name, "suite": j.su.Name})
 		}
 	}
